@@ -79,15 +79,17 @@ def predict_case(cid, rng, big, edited=False):
             Xs = np.tile(np.array([[1.0] + [1.0 / q] * (q - 1)]), (n, 1))
             preds = [ints(model.predict(Xs, src).unscale(), ok) for src in (pg, ug, Z.astype(float))]
             c["pred"] = preds[0] if all(pp == preds[0] for pp in preds) else [[-999996] * T] * n
-            Y = np.array([[rng.randrange(-6, 7) for _ in range(T)] for _ in range(n)], dtype=float)
-            c["Y"] = Y.astype(int).tolist()
+            # responses as float64 or in an integer dtype (counts / scores), with ranges whose squares exceed the dtype
+            ydt, yr = rng.choice([(float, 6), (float, 6), ("int8", 100), ("int16", 200 if n <= 4 else 100), ("int32", 6), ("int64", 200 if n <= 4 else 100)])
+            Y = np.array([[rng.randrange(-yr, yr + 1) for _ in range(T)] for _ in range(n)], dtype=ydt)
+            c["Y"] = Y.astype(int).tolist(); c["ydtype"] = str(np.dtype(ydt))
             r2 = np.asarray(model.score(Y, Xs, pg), dtype=float)
             c["r2"] = []; c["r2nan"] = []; c["r2on"] = n <= 8
             for x in r2:
                 if not np.isfinite(x):
                     c["r2"].append([0, 1]); c["r2nan"].append(True)
                 else:
-                    f = Fraction(float(x)).limit_denominator(5000)
+                    f = Fraction(float(x)).limit_denominator(10 ** 6)      # n * SST <= 8 * 8 * 100^2 (4 * 4 * 200^2)
                     if n <= 8 and abs(float(f) - x) > 1e-9 * max(1.0, abs(x)):
                         ok[0] = False
                     c["r2"].append([f.numerator, f.denominator]); c["r2nan"].append(False)
@@ -233,7 +235,7 @@ def run(ctx):
     for k in range(48 if thorough else 16):
         allc.append(ridge_case(len(allc) + 1, rng, via=vias[k % 4]))
     verd = cases.validate(ctx, "LinModel_Trace", "LinModel_Trace.cfg",
-                          [{k: v for k, v in c.items() if k not in ("float_checks", "dom", "q", "edited", "via", "ref")} for c in allc],
+                          [{k: v for k, v in c.items() if k not in ("float_checks", "dom", "q", "edited", "via", "ref", "ydtype")} for c in allc],
                           "LinModel_Trace", chunk=20, procs=14)
     ctx.traces += len(allc)
     for c in allc:
